@@ -60,7 +60,7 @@ def record_and_validate(ctx, prop, n=0, tier=None, parts=None, exe=None):
     tabs = spec_tables(ctx)
     trace = os.path.join(ctx.work, 'trace-%s-%d.ndjson' % (prop, len(os.listdir(ctx.work))))
     kw = {'in': trace, 'aux': json.dumps(tabs), 'prop': prop, 'n': n}
-    s = ctx.harness('record', exe=exe, tier=tier, **kw)
+    s = ctx.harness('record', exe=exe, tier=tier, env={'GORACE': 'exitcode=0 halt_on_error=0'}, **kw)
     files = split_file(trace, parts or core.NCPU)
     with ThreadPoolExecutor(max_workers=core.NCPU) as ex:
         res = list(ex.map(lambda a: validate_one(ctx, a[1], a[0]), enumerate(files)))
@@ -77,7 +77,7 @@ def record_and_validate(ctx, prop, n=0, tier=None, parts=None, exe=None):
                              version=ev.get('ver'), input=describe(ev), expected='see spec/Trace.tla (' + b['why'] + ')',
                              observed={k: ev[k] for k in ('ok', 'err', 'val', 'r', 'tenths', 'raw', 'after') if k in ev},
                              replay=dict(mode='trace1', event=ev)))
-    return viol, dict(events=events, files=len(files), samples=[describe(x) for x in samples])
+    return viol, dict(events=events, files=len(files), samples=[describe(x) for x in samples], stderr=s.get('_stderr', ''))
 
 
 def describe(ev):
